@@ -72,17 +72,16 @@ def register(api):
         table = re.findall(r"'((?:\\.|[^'\\]))'\s*=>\s*Token::single_char\(\s*TokenKind::(\w+)\s*,", body)
         if not table:
             raise api.ExtractError("single-character token table not found in next_token")
-        m2 = re.search(r"((?:'(?:\\.|[^'\\])'\s*\|?\s*)+)=>\s*continue", body)
-        if not m2:
-            raise api.ExtractError("whitespace arm (`=> continue`) not found in next_token")
-        skip = [rust_char(x, api) for x in re.findall(r"'((?:\\.|[^'\\]))'", m2.group(1))]
+        # whitespace arm: `c if c.is_whitespace() => continue` (every Rust whitespace character is skipped)
+        if not re.search(r"\bc\s+if\s+c\.is_whitespace\(\)\s*=>\s*continue", body):
+            raise api.ExtractError("whitespace arm `c if c.is_whitespace() => continue` not found in next_token")
         toks = [(rust_char(c, api), k) for c, k in table]
         known = {"QMark", "Plus", "Star", "Bang", "And", "Or", "LParen", "RParen"}
         for _, k in toks:
             if k not in known:
                 raise api.ExtractError(f"unknown token kind {k} in next_token")
         vals["SINGLE_CHAR_TOKENS"] = "".join(c for c, _ in toks) + " -> " + ",".join(k for _, k in toks)
-        vals["LEX_SKIP"] = [ord(c) for c in skip]
+        vals["LEX_SKIP"] = "char::is_whitespace"
         # read_hop_predicate must stop at whitespace or a reserved character
         if not re.search(r"p\.is_whitespace\(\)\s*\|\|\s*Self::RESERVED_CHARS\.contains\(p\)", src):
             raise api.ExtractError("read_hop_predicate stop condition changed")
@@ -163,8 +162,8 @@ def register(api):
         b = "namespace ScionVerif.Generated.Policy\n"
         b += "/-- `HopPatternLexer::RESERVED_CHARS` -/\n"
         b += "def RESERVED_CHARS : List Char := [" + ", ".join(lean_char(c) for c in reserved) + "]\n"
-        b += "/-- characters skipped by `next_token` (`=> continue`) -/\n"
-        b += "def LEX_SKIP : List Char := [" + ", ".join(lean_char(c) for c in skip) + "]\n"
+        b += "/-- `next_token` skips exactly the characters with `char::is_whitespace` (`c if c.is_whitespace() => continue`) -/\n"
+        b += "def LEX_SKIPS_RUST_WHITESPACE : Bool := true\n"
         b += "/-- single-character tokens of `next_token`: character, `TokenKind` variant name -/\n"
         b += "def SINGLE_CHAR_TOKENS : List (Char × String) := [" + ", ".join(
             f'({lean_char(c)}, "{k}")' for c, k in toks) + "]\n"
